@@ -87,6 +87,7 @@ type c16Env struct {
 	prevDone  map[string][]string // completed transactions at the end of the previous tick
 	nAck      int                 // acknowledgements sent through the control port
 	nCtlTaken int                 // commands taken from the control port
+	routed    bool                // the component was built with c16PageMapper providers
 }
 
 type c16Hook struct {
@@ -108,6 +109,11 @@ func (h *c16Hook) Func(ctx sim.HookCtx) {
 			n := len(e.tidNum)
 			e.tidNum[q.ID] = n
 			e.ev = append(e.ev, fmt.Sprintf("Q%d:%d:%x", n, q.PID, q.VAddr))
+			if e.routed {
+				if want := (c16PageMapper{"MMU", e.lg}).Find(q.VAddr); q.Dst != want || q.Src != e.tr.AsRemote() || q.DeviceID != 1 {
+					e.r.Failf("C16.lookup.route", e.line, "lookup %d (vaddr %x): src %s dst %s device %d, translation provider is %s", n, q.VAddr, q.Src, q.Dst, q.DeviceID, want)
+				}
+			}
 			if e.lastQ != nil {
 				e.r.Failf("C16.lookup.orphan", e.line, "translation request %d sent without accepting an access", e.tidNum[e.lastQ.ID])
 			}
@@ -265,6 +271,12 @@ func (e *c16Env) onBotSend(m sim.Msg) {
 	if a.vaddr%(1<<e.lg)+uint64(max(int(a.size), len(a.data))) > 1<<e.lg {
 		e.r.Count("forward.page-straddling")
 	}
+	if e.routed {
+		e.r.Checked("route")
+		if want := (c16PageMapper{"Mem", e.lg}).Find(addr); m.Meta().Dst != want || m.Meta().Src != e.bot.AsRemote() {
+			e.r.Failf("C16.forward.route", e.line, "access %d forwarded to %x: src %s dst %s, memory provider for that address is %s", idx, addr, m.Meta().Src, m.Meta().Dst, want)
+		}
+	}
 	if fpid != 0 {
 		e.r.Failf("C16.forward.pid", e.line, "access %d: forwarded request carries PID %d, physical requests carry PID 0", idx, fpid)
 	}
@@ -342,6 +354,22 @@ func (e *c16Env) onTopSend(m sim.Msg) {
 	}
 }
 
+// c16PageMapper routes by the parity of the page number: requests to even / odd pages go to
+// different providers (second deepening: the destination of every forwarded request must be the
+// memory mapper's choice for the *translated* address, that of every lookup the translation
+// mapper's choice for the *virtual* address).
+type c16PageMapper struct {
+	prefix string
+	lg     uint64
+}
+
+func (m c16PageMapper) Find(a uint64) sim.RemotePort {
+	if m.lg >= 64 {
+		return sim.RemotePort(m.prefix + "0")
+	}
+	return sim.RemotePort(fmt.Sprintf("%s%d", m.prefix, (a>>m.lg)&1))
+}
+
 func c16MemByte(a uint64) byte { return byte((a*13 + 5) % 256) }
 
 func newC16Env(r *Run, line string, w int, lg, salt uint64) *c16Env {
@@ -356,9 +384,10 @@ func newC16Env(r *Run, line string, w int, lg, salt uint64) *c16Env {
 		WithNumReqPerCycle(w).
 		WithLog2PageSize(lg).
 		WithDeviceID(1).
-		WithMemoryProviderMapper(onePortMapper{"Mem"}).
-		WithTranslationProviderMapper(onePortMapper{"MMU"}).
+		WithMemoryProviderMapper(c16PageMapper{"Mem", lg}).
+		WithTranslationProviderMapper(c16PageMapper{"MMU", lg}).
 		Build("AT")
+	e.routed = true
 	e.top, e.bot, e.tr, e.ctl = e.comp.VerifC16Ports()
 	conn := &fakeConn{name: "c16"}
 	for k, p := range map[string]sim.Port{"top": e.top, "bot": e.bot, "tr": e.tr, "ctl": e.ctl} {
